@@ -48,7 +48,7 @@ def bounds(tier):
             "offset": "letters {b/2+7, b+1, b+5, b+6, 2b+1, 2b+8} for b in {1e5, 1e6, 2**24, 1e9}, 3..6 items, k=2..3: ckk/snp/rnp/dp (all objectives, both output families), cg x 3 objectives x {all switches on, all off}",
             "named": "values 0..5, 2..5 items, k=2..3, dict with integer names: all exact algorithms and all cg configurations",
             "separating": SEP_TEXT,
-            "spread9": "all multisets of 9 items over (3,7,12,19,28,41,57,77,97), k=4, and over the primes 11..43, k=4..5: rnp, snp, ckk",
+            "spread9": "all multisets of 9 items over (3,7,12,19,28,41,57,77,97) and over the primes 11..43, k=4: rnp and ckk",
             "big": "values {0, 1, 2**24+1, 2**31+1, 2**32+3, 2**40+5}, 2..6 items, k=2..4: ckk/snp/rnp/dp (all objectives); cg 48 configurations k=2..3"}
 
 
@@ -97,7 +97,7 @@ def tasks(tier):
         ts.append(("spread9", ch, (4,), tier))
     if not q:
         for ch in scopes.chunk_multisets(PRIMES10, 9, 9, 60):
-            ts.append(("spread9", ch, (4, 5), tier))
+            ts.append(("spread9", ch, (4,), tier))
     # named items whose names are integers larger than, and anti-correlated with, the values
     for ch in scopes.chunk_multisets(range(0, 6), 2, 5, 40):
         ts.append(("named-cg", ch, (2, 3), tier))
@@ -173,7 +173,7 @@ def run_task(task):
         for ms in chunk:
             for k in ks:
                 acc.point(nontrivial=True)
-                for a in (("rnp",) if tier == "quick" else ("rnp", "snp", "ckk")):
+                for a in (("rnp",) if tier == "quick" else ("rnp", "ckk")):        # snp costs seconds per call at this size
                     _judge(acc, {"algo": a, "items": list(ms), "k": k, "out": "Sums", "kw": {}, "dp_oracle": True}, "MinimizeDifference")
         acc.sample({"scope": scope, "items": list(chunk[0]), "k": list(ks)})
         O.opt_partition_dp.cache_clear()
